@@ -40,7 +40,14 @@ type Cfg struct {
 	Tick int      `json:"tick"`           // clock step per Now()
 	Rng  []int    `json:"rng,omitempty"`  // scripted rng bytes (then zeros)
 	Init []string `json:"init,omitempty"` // coll: "id~msg"; val: one "msg"
-	Eqv  string   `json:"eqv,omitempty"`  // equivalence name (C04)
+	Eqv  string   `json:"eqv,omitempty"`  // equivalence name (resource-level: consulted by Pull only)
+	// Res: the resource as constructed from an ORDERED list of resource options (tokens of resOption in
+	// common_real.go; repeats allowed). When present the real constructor is given exactly these options
+	// and the driver folds the same list; W / Icpt / Init / Eqv then hold what the list RESOLVES to by the
+	// reference table resolveRes (common_resolve.go) - the oracle works on those - and Panics whether the
+	// table says construction panics (an initial record id given twice).
+	Res    []string `json:"res,omitempty"`
+	Panics bool     `json:"panics,omitempty"`
 }
 
 // Op is one request; Opts are tokens of the driver protocol ("um=a,s", "xa", "chk=aEq:3", …).
@@ -68,11 +75,15 @@ func (c Cfg) line() string {
 	} else {
 		b.WriteString("newc")
 	}
-	if c.W != nil {
-		b.WriteString(" W=" + *c.W)
-	}
-	if c.Icpt != "" {
-		b.WriteString(" icpt=" + c.Icpt)
+	if len(c.Res) > 0 {
+		b.WriteString(" res=" + strings.Join(c.Res, "|"))
+	} else {
+		if c.W != nil {
+			b.WriteString(" W=" + *c.W)
+		}
+		if c.Icpt != "" {
+			b.WriteString(" icpt=" + c.Icpt)
+		}
 	}
 	fmt.Fprintf(&b, " tick=%d", c.Tick)
 	if len(c.Rng) > 0 {
@@ -82,10 +93,10 @@ func (c Cfg) line() string {
 		}
 		b.WriteString(" rng=" + strings.Join(s, ","))
 	}
-	if len(c.Init) > 0 {
+	if len(c.Init) > 0 && len(c.Res) == 0 {
 		b.WriteString(" init=" + strings.Join(c.Init, ";"))
 	}
-	if c.Eqv != "" {
+	if c.Eqv != "" && len(c.Res) == 0 {
 		b.WriteString(" eqv=" + c.Eqv)
 	}
 	return b.String()
@@ -476,6 +487,10 @@ func namedEqv(n string) func(x, y proto.Message) bool {
 		return func(x, y proto.Message) bool { return proto.Equal(x, y) }
 	case "sameA":
 		return func(x, y proto.Message) bool { return optA(x) == optA(y) }
+	case "never":
+		return func(x, y proto.Message) bool { return false }
+	case "always":
+		return func(x, y proto.Message) bool { return true }
 	}
 	panic("unknown equivalence " + n)
 }
